@@ -118,6 +118,28 @@ def generate(tier, rng):
                                    "tags": ["pipelined", mode, cfgname],
                                    "key": (cfgname, "s", 1, 1, data, tuple(len(p) for p in parts))}))
                 n += 1
+    # a request that was REJECTED earlier on the same (kept-alive) connection must not influence how the next one is
+    # received: bad header line, bad trailer line, header-count limit
+    preludes = [b"GET /a HTTP/1.1\r\nHost: a\r\nBad Header\r\n\r\n",
+                b"POST /t HTTP/1.1\r\nHost: a\r\nTransfer-Encoding: chunked\r\n\r\n1\r\nx\r\n0\r\nBad Trailer\r\n\r\n",
+                b"GET /n HTTP/1.1\r\nHost: a\r\n" + b"".join(b"h%d: v\r\n" % i for i in range(120)) + b"\r\n",
+                b"GET /l HTTP/1.1\r\nHost: a\r\nLong: " + b"v" * 70000 + b"\r\n\r\n"]
+    for ai in range(24 if quick else 600):
+        cfgname = rng.choice(["srv", "srvs"])
+        cfg = G.REQ_CFGS[cfgname]
+        pre = preludes[ai % len(preludes)]
+        r2 = G.rand_request(rng, cfg, small=True)
+        if r2.expects_continue():
+            continue
+        data = r2.render()
+        for mode in ("whole", "bytes", "lines", "struct", "cut1"):
+            for parts in G.partitions(data, rng, mode, k=3):
+                cfgline = cfg.new_line(cont="s", th=1, cc=1)
+                cases.append(Case("c01-a%d-%d" % (ai, n), [cfgline] + G.feed_lines([pre]) + G.feed_lines(parts),
+                                  {"expect_after": r2.expected(1, 1), "nparts": len(parts) + 1,
+                                   "tags": ["after-invalid", mode, cfgname],
+                                   "key": (cfgname, "s", 1, 1, pre[:20] + data, tuple(len(p) for p in parts))}))
+                n += 1
     # large bodies
     for bi in range(3 if quick else 30):
         cfg = G.REQ_CFGS["srv"]
@@ -131,6 +153,14 @@ def generate(tier, rng):
 
 
 def oracle(case, out):
+    if case.meta.get("expect_after") is not None:
+        got = G.deliveries(out[1:])
+        if not got or not got[0].startswith("INVALID"):
+            return None         # the prelude was not rejected under this configuration: nothing to judge
+        if got[1:] != case.meta["expect_after"]:
+            return ("a well-formed request that follows a REJECTED one on the same connection is delivered differently "
+                    "(split into %d reads):\n expected %s\n got      %s" % (case.meta["nparts"] - 1, case.meta["expect_after"], got[1:]))
+        return None
     exp = case.meta.get("expect")
     if exp is None:
         return None
